@@ -69,6 +69,9 @@ type session struct {
 type chunkReader struct {
 	chunks [][]byte
 	pos    int
+	// eofWithData: the Read that delivers the last byte returns it together with io.EOF
+	// (as iotest.DataErrReader and HTTP bodies of known length do) instead of on a later call.
+	eofWithData bool
 }
 
 func (c *chunkReader) Read(p []byte) (int, error) {
@@ -85,6 +88,9 @@ func (c *chunkReader) Read(p []byte) (int, error) {
 		c.chunks = c.chunks[1:]
 	}
 	c.pos += n
+	if c.eofWithData && len(c.chunks) == 0 {
+		return n, io.EOF
+	}
 	return n, nil
 }
 
@@ -116,6 +122,7 @@ func splitChunks(data []byte, mode string) (*chunkReader, error) {
 	default:
 		return nil, fmt.Errorf("bad chunk mode")
 	}
+	c.eofWithData = (len(data)+len(c.chunks))%2 == 1
 	return c, nil
 }
 
